@@ -167,8 +167,9 @@ impl Tracker {
                 self.status = Status::Ready;
                 Some(previous)
             }
-            ScheduleReason::Ready => {
-                debug_assert!(self.status == Status::Paused(PauseReason::Busy));
+            // A `Ready` is the link's answer to an `Unschedule`, i.e. to a `Busy` pause. A late
+            // or duplicate `Ready` must not disturb a connection paused for another reason.
+            ScheduleReason::Ready if previous == PauseReason::Busy => {
                 self.status = Status::Ready;
                 Some(previous)
             }
